@@ -660,3 +660,127 @@ func VerifC10FailingNode() {
 	vassert(c10Count(evs, "h", "start", "A") == 1 && c10Count(evs, "h", "end", "A") == 1, "a failing or panicking node: exactly one start and one end (error) for the node")
 	vassert(c10Count(evs, "h", "start", "G") == 1 && c10Count(evs, "h", "end", "G") == 1, "a failing or panicking node: exactly one start and one end (error) for the graph")
 }
+
+// a handler that only listens to the start timings, or only to the end timings (TimingChecker)
+type c10Timed struct {
+	c10Rec
+	starts, ends bool
+}
+
+func (h *c10Timed) Needed(ctx context.Context, info *callbacks.RunInfo, timing callbacks.CallbackTiming) bool {
+	switch timing {
+	case callbacks.TimingOnStart, callbacks.TimingOnStartWithStreamInput:
+		return h.starts
+	}
+	return h.ends
+}
+
+// All four paradigms, handlers with timing filters (one hears only ends, one only starts, one everything) passed in
+// one option or in separate options, with or without a global handler: every handler hears exactly the timings it
+// asked for, once per unit (graph G, nodes A and B), in every paradigm; append capacities nondeterministic.
+func VerifC10Paradigms() {
+	ctx := context.Background()
+	vcfg("fifo", 1)
+	vcfg("selectfirst", 1)
+	vcfgAppendCapIn("initGraphCallbacks")
+	vcfgAppendCapIn("initNodeCallbacks")
+	vcfgAppendCapIn("AppendHandlers")
+	var evs []c10Ev
+	body := func(key string) *Lambda {
+		return InvokableLambda(func(ctx context.Context, in map[string]any) (map[string]any, error) {
+			return map[string]any{key: vsymUF("f_"+key, vFold(in))}, nil
+		})
+	}
+	g := NewGraph[map[string]any, map[string]any]()
+	_ = g.AddLambdaNode("a", body("a"), WithNodeName("A"))
+	_ = g.AddLambdaNode("b", body("b"), WithNodeName("B"))
+	_ = g.AddEdge(START, "a")
+	_ = g.AddEdge("a", "b")
+	_ = g.AddEdge("b", END)
+	r, err := g.Compile(ctx, WithGraphName("G"))
+	vassert(err == nil, "graph compiles")
+	withGlobal := vchoose("global", 2) == 1
+	if withGlobal {
+		callbacks.InitCallbackHandlers([]callbacks.Handler{&c10Rec{id: "hg", evs: &evs, closeOut: true}})
+		defer callbacks.InitCallbackHandlers(nil)
+	}
+	t1 := &c10Timed{c10Rec{id: "t1", evs: &evs, closeOut: true}, false, true}
+	t2 := &c10Timed{c10Rec{id: "t2", evs: &evs, closeOut: true}, true, false}
+	h3 := &c10Rec{id: "h3", evs: &evs, closeOut: true}
+	var opts []Option
+	if vchoose("separate", 2) == 1 {
+		opts = []Option{WithCallbacks(t1), WithCallbacks(t2), WithCallbacks(h3)}
+	} else {
+		opts = []Option{WithCallbacks(t1, t2, h3)}
+	}
+	x := vsymInt("x")
+	in := map[string]any{"in": x}
+	var out map[string]any
+	var rerr error
+	paradigm := vchoose("paradigm", 4)
+	switch paradigm {
+	case 0:
+		out, rerr = r.Invoke(ctx, in, opts...)
+	case 1:
+		sr, e := r.Stream(ctx, in, opts...)
+		rerr = e
+		if e == nil {
+			out, rerr = vDrainMap(sr)
+		}
+	case 2:
+		out, rerr = r.Collect(ctx, schema.StreamReaderFromArray([]map[string]any{in}), opts...)
+	case 3:
+		sr, e := r.Transform(ctx, schema.StreamReaderFromArray([]map[string]any{in}), opts...)
+		rerr = e
+		if e == nil {
+			out, rerr = vDrainMap(sr)
+		}
+	}
+	vassert(rerr == nil, "run succeeds")
+	a := vsymUF("f_a", vFold(in))
+	vassert(vMapEq(out, map[string]any{"b": vsymUF("f_b", vFold(map[string]any{"a": a}))}), "the result is unaffected by the handlers")
+	vquiesce()
+	for _, u := range []string{"G", "A", "B"} {
+		vassert(c10Count(evs, "t1", "start", u) == 0 && c10Count(evs, "t1", "end", u) == 1, "a handler that asked for the end timings only hears exactly one end of unit "+u)
+		vassert(c10Count(evs, "t2", "start", u) == 1 && c10Count(evs, "t2", "end", u) == 0, "a handler that asked for the start timings only hears exactly one start of unit "+u)
+		vassert(c10Count(evs, "h3", "start", u) == 1 && c10Count(evs, "h3", "end", u) == 1, "an unfiltered handler hears exactly one start and one end of unit "+u)
+		if withGlobal {
+			vassert(c10Count(evs, "hg", "start", u) == 1 && c10Count(evs, "hg", "end", u) == 1, "the global handler hears exactly one start and one end of unit "+u)
+		}
+	}
+}
+
+// A component developer initialises the callbacks of two units from one common handler list that has spare capacity
+// (unit A: [common], unit B: [common, extra]) while a global handler is registered. Firing the callbacks of one unit,
+// one after the other or at the same time, never changes which handlers the other unit reports to, and is not a data
+// race in framework code.
+func VerifC10SharedHandlerList() {
+	vcfg("preempt", 2)
+	var evs []c10Ev
+	callbacks.InitCallbackHandlers([]callbacks.Handler{&c10Rec{id: "hg", evs: &evs}})
+	defer callbacks.InitCallbackHandlers(nil)
+	common := make([]callbacks.Handler, 0, 4)
+	common = append(common, &c10Rec{id: "common", evs: &evs})
+	ctxA := callbacks.InitCallbacks(context.Background(), &callbacks.RunInfo{Name: "A"}, common...)
+	ctxB := callbacks.InitCallbacks(context.Background(), &callbacks.RunInfo{Name: "B"}, append(common, &c10Rec{id: "extra", evs: &evs})...)
+	if vchoose("concurrent", 2) == 1 {
+		done := make(chan struct{})
+		go func() {
+			callbacks.OnStart(ctxA, "a")
+			callbacks.OnEnd(ctxA, "a")
+			close(done)
+		}()
+		callbacks.OnStart(ctxB, "b")
+		callbacks.OnEnd(ctxB, "b")
+		<-done
+	} else {
+		callbacks.OnStart(ctxA, "a")
+		callbacks.OnStart(ctxB, "b")
+		callbacks.OnEnd(ctxA, "a")
+		callbacks.OnEnd(ctxB, "b")
+	}
+	for _, k := range []string{"start", "end"} {
+		vassert(c10Count(evs, "common", k, "A") == 1 && c10Count(evs, "hg", k, "A") == 1 && c10Count(evs, "extra", k, "A") == 0, "unit A reports each "+k+" once to its own handler and to the global one")
+		vassert(c10Count(evs, "common", k, "B") == 1 && c10Count(evs, "extra", k, "B") == 1 && c10Count(evs, "hg", k, "B") == 1, "unit B reports each "+k+" once to both of its handlers and to the global one")
+	}
+}
